@@ -53,6 +53,38 @@ def run_item(args):
             rec['exercised'] = bool(hit)
             if not hit:
                 vc.undecided.append(api.Undecided(key, 'NOT-EXERCISED: declared under contract but no explored path executed its body'))
+    # every function of the repository whose body some explored path executed symbolically (declared under contract or not):
+    # reported separately from `functions_under_contract`, which lists only functions a contract item states obligations for
+    executed = []
+    try:
+        import ast as _ast
+        idx = {}
+        for m, ln in entered:
+            if not m or ln is None or not m.startswith('dataflows'):
+                continue
+            rel = loader.relpath_of_module(m)
+            if rel is None:
+                continue
+            if rel not in idx:
+                src, tree = loader.read_source(rel)
+                tab = {}
+
+                def walk(node, prefix):
+                    for ch in _ast.iter_child_nodes(node):
+                        if isinstance(ch, (_ast.FunctionDef, _ast.AsyncFunctionDef)):
+                            tab[ch.lineno] = prefix + ch.name
+                            walk(ch, prefix + ch.name + '.')
+                        elif isinstance(ch, _ast.ClassDef):
+                            walk(ch, prefix + ch.name + '.')
+                        else:
+                            walk(ch, prefix)
+                walk(tree, '')
+                idx[rel] = tab
+            q = idx[rel].get(ln)
+            if q:
+                executed.append('%s::%s' % (rel, q))
+    except Exception:
+        executed = []
     obls = []
     both = tier == 'thorough'
     for o in vc.obligations:
@@ -62,10 +94,16 @@ def run_item(args):
             o.status = 'undecided'
             o.verdict = smt.Verdict('unknown', 'z3', 0.0, reason='solver exception: %s' % e)
         v = o.verdict
-        rec = dict(name=o.name, kind=o.kind, fn=o.fn, status=o.status, backend=v.backend, ms=round(v.ms, 2),
+        rec = dict(name=o.name, item=item.name, kind=o.kind, fn=o.fn, status=o.status, backend=v.backend, ms=round(v.ms, 2),
                    reason=v.reason, info={k: str(x) for k, x in (o.info or {}).items()})
         if o.status == 'failed':
             rec['model'] = str(v.model)[:6000] if v.model is not None else None
+            try:
+                from pyvc import cex
+                g = o.goal if not isinstance(o.goal, bool) else None
+                rec['cex'] = cex.extract(v.model, ([g] if g is not None else []) + list(o.hyps)) if v.model is not None else None
+            except Exception as e:
+                rec['cex'] = {'__error__': 'counter-model not concretised: %s' % e}
             try:
                 rec['goal'] = str(o.goal)[:3000]
                 rec['hyps'] = [str(h)[:600] for h in o.hyps][:40]
@@ -75,7 +113,7 @@ def run_item(args):
     return dict(item=item.name, idx=idx, obligations=obls, bounded_notes=list(vc.bounded_notes),
                 undecided=[dict(fn=u.fn, reason=u.reason) for u in vc.undecided],
                 functions=list(vc.functions.values()), assumptions=sorted(vc.assumptions), trusted=sorted(vc.trusted),
-                paths=vc.path_count, wall=time.time() - t0, crashed=crashed, solver=dict(smt.STATS),
+                paths=vc.path_count, wall=time.time() - t0, crashed=crashed, solver=dict(smt.STATS), executed=sorted(set(executed)),
                 read=dict(loader.READ_LOG))
 
 
@@ -157,6 +195,10 @@ def main():
                     'the evidence of such a run is marked level=other')
     a = ap.parse_args()
     prop = a.prop
+    if (a.only or a.no_native) and 'PYVC_OUT' not in os.environ:
+        # a partial / diagnostic run must never overwrite the evidence of the registered check: its output goes to .scratch/
+        global OUT
+        OUT = os.path.join(VERIF, '.scratch')
     tier = a.tier if a.tier in ('quick', 'thorough') else 'quick'
     seed = int(os.environ.get('VERIF_SEED', '0') or 0)
     t0 = time.time()
@@ -232,6 +274,8 @@ def report(prop, tier, seed, mod, results, native, wall):
         else:
             violations.append(('obligation', o))
     nat_fail = native.get('failures', [])
+    nat_fail_new = []        # native failures that are not a recorded finding: only these may serve as the failing input of a
+                             # failed obligation of the same function
     for nf in nat_fail:
         f = None
         for g in findings:
@@ -242,6 +286,7 @@ def report(prop, tier, seed, mod, results, native, wall):
             known_lines.append('KNOWN-FINDING: property=%s %s [native %s]' % (prop, f['what'], nf.get('test')))
         else:
             violations.append(('native', nf))
+            nat_fail_new.append(nf)
     # a finding that is listed but no longer fails is not an error; listed-as-fixed entries suppress nothing
     os.makedirs(os.path.join(OUT, 'replay', prop), exist_ok=True)
     os.makedirs(os.path.join(OUT, 'evidence'), exist_ok=True)
@@ -257,13 +302,27 @@ def report(prop, tier, seed, mod, results, native, wall):
             fname = re.sub(r'[^A-Za-z0-9_.\[\]-]', '_', v['name'])[:150]
             path = os.path.join('replay', prop, fname + '.json')
             hit = None
-            for nf in nat_fail:
+            for nf in nat_fail_new:
                 if nf.get('fn') and v.get('fn') and nf['fn'] == v['fn']:
                     hit = nf
-            rec = dict(property=prop, obligation=v['name'], function=v.get('fn'), backend=v.get('backend'),
-                       verdict='sat', model=v.get('model'), goal=v.get('goal'), hyps=v.get('hyps'),
-                       solver_output=v.get('reason'), failing_input=hit, confirmed=bool(hit))
+            rec = dict(property=prop, obligation=v['name'], item=v.get('item'), function=v.get('fn'), backend=v.get('backend'),
+                       verdict='sat', model=v.get('model'), counterexample=v.get('cex'), goal=v.get('goal'), hyps=v.get('hyps'),
+                       solver_output=v.get('reason'), failing_input=hit, confirmed=bool(hit),
+                       failing_input_source='bounded harness of the same function' if hit else None)
             json.dump(rec, open(os.path.join(OUT, path), 'w'), indent=1, default=str)
+            # replay of the verifier's own counterexample: the contract item's replayer builds the call of the REAL function
+            # from the concretised counter-model and evaluates the clause in CPython
+            it_ = next((i for i in mod.ITEMS if i.name == v.get('item')), None)
+            if it_ is not None and getattr(it_, 'replay', None) and isinstance(v.get('cex'), dict) and '__error__' not in v['cex'] \
+                    and not native.get('not_run_replay'):
+                rp = run_native(prop, tier, seed, extra=['--cex', os.path.join(OUT, path), '--item', it_.name])
+                rec['counterexample_replay'] = dict(cases=rp.get('cases', 0), failures=rp.get('failures', []), crashed=rp.get('crashed'),
+                                                    skipped=rp.get('skipped'))
+                if rp.get('failures'):
+                    hit = rp['failures'][0]
+                    rec.update(failing_input=hit, confirmed=True, failing_input_source='counter-model of the solver, concretised and '
+                               'run against the real function')
+                json.dump(rec, open(os.path.join(OUT, path), 'w'), indent=1, default=str)
             lines.append('VIOLATION property=%s replay=%s%s' % (prop, path, '' if hit else ' no-failing-input-found'))
         else:
             fname = re.sub(r'[^A-Za-z0-9_.\[\]-]', '_', 'native.' + v.get('test', 'case'))[:150]
@@ -326,6 +385,7 @@ def report(prop, tier, seed, mod, results, native, wall):
         samples=samples,
         obligations_per_item=per_item,
         source_files_read={k: v for r in results for k, v in r['read'].items()},
+        functions_executed_not_declared=sorted({x for r in results for x in r.get('executed', [])} - seenf),
     )
     if level == 'other':
         why = []
@@ -365,6 +425,15 @@ def replay(prop, path):
     p = path if os.path.isabs(path) else os.path.join(VERIF, path)
     rec = json.load(open(p))
     fi = rec.get('failing_input')
+    if fi and str(rec.get('failing_input_source', '')).startswith('counter-model') and rec.get('item'):
+        native = run_native(prop, 'quick', 0, extra=['--cex', p, '--item', rec['item']])
+        fails = native.get('failures', [])
+        if fails:
+            print('VIOLATION property=%s replay=%s' % (prop, path))
+            print(json.dumps(fails[0], indent=1, default=str)[:4000])
+            return 1
+        print('replay of the counterexample did not reproduce a failure on the current tree')
+        return 0
     if not fi:
         print('replay file names obligation %s; no concrete failing input recorded (solver output attached)' % rec.get('obligation'))
         print(json.dumps({k: rec.get(k) for k in ('obligation', 'function', 'model', 'solver_output')}, indent=1)[:4000])
